@@ -309,3 +309,69 @@ Example c17_pipe_reregistration :
                         Ack 4; Result 4 [4000000]; Block 120; Ack 5; Result 5 [8000000]; Block 140])
   = Some (true, 5000000, [3000000; 4000000; 8000000]).
 Proof. vm_compute. repeat split; reflexivity. Qed.
+
+(* ==================================================================================== *)
+(* C17-F4 (known finding, reproduced on the real keepers): is every delivered sample fresh?
+   [prun_f] threads, from the inputs alone, the request ids whose result has been delivered to the
+   windows ([cons]) and the acknowledged ids; [acks_ok]: Band's request ids are unique and non-zero.
+   Refuted: the first check after a check-flag reset (registration, or AddAssetRecords /
+   UpdateAssetRecords of a price-requiring asset) sets TempFetchPriceID to 0, so the next check
+   takes the last acknowledged request for a new one even when it was consumed long ago.  In the
+   witness (N = 1, AcceptedHeightDiff = 40) the oracle is silent from block 60 on, an asset is added
+   at 100, and the check at 140 ends the "outage" (140 - 80 >= 40: every window is wiped) by
+   re-delivering the result consumed at 60: the price is active again with the pre-outage value
+   although no result has arrived. *)
+Definition ex_stale : list pop :=
+  [AddAsset true; Register 1 (mkFmsg 7 1 40); Block 20; Ack 1; Result 1 [1000000]; Block 40;
+   Ack 2; Result 2 [3000000]; Block 60; Block 80; Block 100; AddAsset true; Block 120].
+
+Theorem c17_pipe_fresh_refuted : exists p cons acked p' tw,
+  acks_ok [] ex_stale /\ Forall op_typed ex_stale /\
+  prun_f pinit [] [] ex_stale = Ok (p, cons, acked) /\
+  b_dheight (p_band p) = 80 /\ b_valid (p_band p) = false /\
+  delivered_id 140 (band_begin_block 140 (p_band p)) = Some 2 /\ cons = [2; 1] /\
+  holds_C17_fresh cons (delivered_id 140 (band_begin_block 140 (p_band p))) = false /\
+  kf_C17_4 p cons (Block 140) = true /\
+  b_dbool (band_begin_block 140 (p_band p)) = true /\
+  pstep p (Block 140) = Ok p' /\ sget (p_store p') 1 = Some tw /\
+  active tw = true /\ avg tw = 3000000 /\ vals tw = [3000000].
+Proof.
+  eexists _, _, _, _, _. split.
+  { cbn. intuition (try discriminate). }
+  split; [repeat constructor; cbn; lia|].
+  split; [vm_compute; reflexivity|]. vm_compute. repeat split; reflexivity.
+Qed.
+Print Assumptions c17_pipe_fresh_refuted.
+
+(* outside the class every delivered result is new; and a second delivery happens ONLY at the
+   check that follows such a "first check" (TempFetchPriceID = 0) *)
+Theorem c17_pipe_fresh : forall ops p cons acked h, acks_ok [] ops ->
+  prun_f pinit [] [] ops = Ok (p, cons, acked) ->
+  kf_C17_4 p cons (Block h) = false ->
+  holds_C17_fresh cons (delivered_id h (band_begin_block h (p_band p))) = true.
+Proof.
+  intros ops p cons acked h Ha Hr Hk.
+  exact (fresh_outside_kf p cons acked h (prun_f_inv ops _ _ _ _ _ _ Ha finv_init Hr) Hk).
+Qed.
+Print Assumptions c17_pipe_fresh.
+
+Theorem c17_pipe_redelivery_only_after_reset : forall ops p cons acked h r, acks_ok [] ops ->
+  prun_f pinit [] [] ops = Ok (p, cons, acked) ->
+  delivered_id h (band_begin_block h (p_band p)) = Some r -> zmem r cons = true ->
+  b_temp (p_band p) = 0 /\ b_check (p_band p) = true.
+Proof.
+  intros ops p cons acked h r Ha Hr Hd Hz.
+  exact (redelivery_only_after_reset p cons acked h r (prun_f_inv ops _ _ _ _ _ _ Ha finv_init Hr) Hd Hz).
+Qed.
+Print Assumptions c17_pipe_redelivery_only_after_reset.
+
+(* non-vacuity of c17_pipe_fresh: in the warm history every check delivers a new result *)
+Example c17_pipe_fresh_nonvacuous : exists p cons acked,
+  acks_ok [] (ex_warm ++ [Ack 3; Result 3 [5]]) /\
+  prun_f pinit [] [] (ex_warm ++ [Ack 3; Result 3 [5]]) = Ok (p, cons, acked) /\
+  kf_C17_4 p cons (Block 80) = false /\
+  delivered_id 80 (band_begin_block 80 (p_band p)) = Some 3 /\ cons = [2; 1].
+Proof.
+  eexists _, _, _. split; [cbn; intuition (try discriminate)|].
+  split; [vm_compute; reflexivity|]. vm_compute. repeat split; reflexivity.
+Qed.
